@@ -14,6 +14,7 @@ def step (line : String) : String :=
   | "hdr" :: ws => cmdHdr ws
   | "enc" :: ws => cmdEnc ws
   | "dec" :: ws => cmdDec ws
+  | "decall" :: ws => cmdDecAll ws
   | _ => "bad-op"
 
 partial def loop (hin : IO.FS.Stream) (hout : IO.FS.Stream) : IO Unit := do
